@@ -1,7 +1,7 @@
 SPECIFICATION Spec
 CONSTANTS Cfg <- TheCfg
  Wedge = TRUE
- MakeOnPending = "cancel"
+ MakeOnPending = "replace"
  FireDropsBs = TRUE
  MaxN = 4
 CONSTRAINT Bound
